@@ -121,10 +121,13 @@ fn __verif_n_c15_independent() {
     let mut fail: Option<(String, String)> = None;
     let mut inputs = corpus();
     inputs.extend(interleaved());
+    let thorough = std::env::var("VERIF_TIER").map(|t| t == "thorough").unwrap_or(false);
+    if thorough { inputs.extend(sierra_mutants::e2e_corpus()); }
+    let mut seed = 0x0123456789abcdefu64;
     'o: for (name, src) in inputs {
         let Ok(p) = ProgramParser::new().parse(&src) else { continue };
         let mut all = vec![("unmodified".to_string(), p.clone())];
-        all.extend(mutants(&p));
+        if name.starts_with("e2e:") { all.extend(sierra_mutants::sample_mutants(&p, 60, &mut seed)); } else { all.extend(mutants(&p)); }
         for (what, q) in all {
             cases += 1;
             let h = std::thread::Builder::new().stack_size(64 << 20).spawn(move || catch_unwind(AssertUnwindSafe(|| accepted(&q).map(|info| independent_check(&q, &info))))).unwrap();
